@@ -202,12 +202,21 @@ func one(g *hx.Gen) {
 	r := g.R
 	h := &regnet.HistGen{S: sim, R: r, Emit: g.Emit}
 	h.Start()
+	// blocks that travelled with a dummy confirmation (POW mode ignores it; the block store and the side chain
+	// caches keep it, and attaching such a block in DPOS mode would have it checked)
+	conf := map[common.Uint256]bool{}
+	dl := func(b *types.Block) (string, string) {
+		if h.WithConfirm {
+			conf[b.Hash()] = true
+		}
+		return h.Deliver(b)
+	}
 	trunk := &regnet.Branch{}
 	n := 6 + r.Intn(9)
 	for i := 0; i < n; i++ {
 		b := h.HonestBlock(trunk, 0)
 		trunk = regnet.Extend(trunk, b)
-		h.Deliver(b)
+		dl(b)
 	}
 	for round := 0; round < 3; round++ {
 		tipH := len(trunk.Blocks)
@@ -239,7 +248,7 @@ func one(g *hx.Gen) {
 			blks = append(blks, b)
 		}
 		for _, b := range blks {
-			h.Deliver(b)
+			dl(b)
 		}
 		g.Emit("obs c h")
 		// a refused fork keeps growing: it must stay refused however far it gets ahead
@@ -247,7 +256,7 @@ func one(g *hx.Gen) {
 			for k := 1 + r.Intn(2*depth+3); k > 0; k-- {
 				b := h.HonestBlock(br, 0)
 				br = regnet.Extend(br, b)
-				h.Deliver(b)
+				dl(b)
 			}
 			g.Emit("obs c h")
 		}
@@ -273,12 +282,23 @@ func one(g *hx.Gen) {
 					idx = forkAt + r.Intn(len(other.Blocks)-forkAt)
 				}
 				target := other.Blocks[idx]
+				pathConf := false
+				for _, pb := range other.Blocks[forkAt : idx+1] {
+					pathConf = pathConf || conf[pb.Hash()]
+				}
 				if r.Chance(30) { // the guard's inputs change between the attempts
 					d := r.Intn(2)
+					if pathConf {
+						d = 0
+					}
+					dpos = d
 					g.Emit("irr %d %d %d", r.Intn(len(trunk.Blocks)+2), d, []int{1, len(trunk.Blocks), 1000000}[r.Intn(3)])
 					if d != 0 {
 						h.WithConfirm = false // dummy confirmations only travel in POW mode, where they are ignored
 					}
+				}
+				if pathConf && dpos != 0 {
+					break
 				}
 				g.Emit("reorgto %s", regnet.ID(target.Hash()))
 				g.Emit("obs c h")
@@ -293,7 +313,7 @@ func one(g *hx.Gen) {
 		for k := r.Intn(3); k > 0; k-- {
 			b := h.HonestBlock(trunk, 0)
 			trunk = regnet.Extend(trunk, b)
-			h.Deliver(b)
+			dl(b)
 		}
 	}
 }
